@@ -6,7 +6,7 @@ RULE = ("each of the 19 transforms through a one-stage sequence: Forward into a 
 
 def check(run):
     from props import _stream
-    _stream.check(run, PID, "c13", RULE, extra_cmds=("seqm", "zrm"))
+    _stream.check(run, PID, "c13", RULE, extra_cmds=("seqm", "zrm", "sbm"))
 
 def replay(path):
     import json
